@@ -2,7 +2,6 @@
 package c07
 
 import (
-	"fmt"
 	"go/ast"
 	"go/token"
 	"go/types"
@@ -11,6 +10,7 @@ import (
 
 	"rscheck/cfgq"
 	"rscheck/core"
+	"rscheck/pat"
 )
 
 // Consumer is a function literal ranging over a channel.
@@ -33,7 +33,7 @@ func RangeConsumers(info *types.Info, body ast.Node, ch types.Object) (cons []Co
 		stack = append(stack, n)
 		switch x := n.(type) {
 		case *ast.RangeStmt:
-			if id, ok := ast.Unparen(x.X).(*ast.Ident); ok && info.Uses[id] == ch {
+			if id, ok := ast.Unparen(x.X).(*ast.Ident); ok && RootObj(info, id) == ch {
 				var lit *ast.FuncLit
 				for _, p := range stack {
 					if fl, ok := p.(*ast.FuncLit); ok {
@@ -51,8 +51,24 @@ func RangeConsumers(info *types.Info, body ast.Node, ch types.Object) (cons []Co
 					allowed[id] = true
 				}
 			}
+		case *ast.ValueSpec: // `var a T = ch` / `b := a`: a plain copy of the channel, followed by RootObj
+			for i, v := range x.Values {
+				if id, ok := ast.Unparen(v).(*ast.Ident); ok && i < len(x.Names) && RootObj(info, id) == ch && localCopy(info, x.Names[i]) {
+					allowed[id] = true
+				}
+			}
+		case *ast.AssignStmt:
+			if len(x.Lhs) == len(x.Rhs) {
+				for i, v := range x.Rhs {
+					id, ok := ast.Unparen(v).(*ast.Ident)
+					l, isID := x.Lhs[i].(*ast.Ident)
+					if ok && isID && RootObj(info, id) == ch && info.Defs[l] != nil && localCopy(info, l) {
+						allowed[id] = true
+					}
+				}
+			}
 		case *ast.Ident:
-			if info.Uses[x] == ch && !allowed[x] {
+			if o := info.Uses[x]; o != nil && (o == ch || RootObj(info, x) == ch) && !allowed[x] {
 				other = append(other, x)
 			}
 		}
@@ -61,10 +77,151 @@ func RangeConsumers(info *types.Info, body ast.Node, ch types.Object) (cons []Co
 	return
 }
 
+// RootObj follows single-assignment copies (`a := b`, `var a T = b`) back to the variable they stand for. A copy
+// is followed only when the copied variable is stable (never assigned after its definition: parameters, range
+// variables, single-assignment locals), so that the copy and the original cannot differ.
+func RootObj(info *types.Info, e ast.Expr) types.Object {
+	for i := 0; i < 8; i++ {
+		id, ok := ast.Unparen(e).(*ast.Ident)
+		if !ok {
+			return nil
+		}
+		d := pat.DefOf(info, id)
+		src, isID := ast.Unparen(d).(*ast.Ident)
+		if d == nil || !isID {
+			return core.ObjOf(info, id)
+		}
+		if o := core.ObjOf(info, src); o == nil || reassigned[o] {
+			return core.ObjOf(info, id)
+		}
+		e = d
+	}
+	return nil
+}
+
+// CalleeF is core.CalleeFunc that also resolves a call through a local bound once to a function or method value
+// (`next := l.NextBinEntry; next()`).
+func CalleeF(info *types.Info, call *ast.CallExpr) *types.Func {
+	if f := core.CalleeFunc(info, call); f != nil {
+		return f
+	}
+	if id, ok := ast.Unparen(call.Fun).(*ast.Ident); ok {
+		for i := 0; i < 4; i++ {
+			d := pat.DefOf(info, id)
+			if d == nil {
+				return nil
+			}
+			switch x := ast.Unparen(d).(type) {
+			case *ast.Ident:
+				if f, ok := core.ObjOf(info, x).(*types.Func); ok {
+					return f
+				}
+				id = x
+				continue
+			case *ast.SelectorExpr:
+				f, _ := core.ObjOf(info, x).(*types.Func)
+				return f
+			}
+			return nil
+		}
+	}
+	return nil
+}
+
+// Obj is core.ObjOf that looks through stable copies (see RootObj); selectors and definitions are unchanged.
+func Obj(info *types.Info, e ast.Expr) types.Object {
+	if id, ok := ast.Unparen(e).(*ast.Ident); ok && info.Uses[id] != nil {
+		if o := RootObj(info, id); o != nil {
+			return o
+		}
+	}
+	return core.ObjOf(info, e)
+}
+
+// reassigned lists the variables that are assigned (or inc/dec-ed, or have their address taken) somewhere
+// other than at their definition; filled by IndexAssignments.
+var reassigned = map[types.Object]bool{}
+var indexed = map[*core.Program]bool{}
+
+// IndexAssignments records, once per loaded program, which variables of the module are re-assigned.
+func IndexAssignments(p *core.Program) {
+	if indexed[p] {
+		return
+	}
+	indexed[p] = true
+	for _, pk := range p.Pkgs {
+		info := pk.TypesInfo
+		if info == nil {
+			continue
+		}
+		mark := func(e ast.Expr) {
+			if id, ok := ast.Unparen(e).(*ast.Ident); ok {
+				if o := info.Uses[id]; o != nil {
+					reassigned[o] = true
+				}
+			}
+		}
+		for _, f := range pk.Syntax {
+			ast.Inspect(f, func(n ast.Node) bool {
+				switch x := n.(type) {
+				case *ast.AssignStmt:
+					for _, l := range x.Lhs {
+						mark(l) // a use on the left-hand side is a re-assignment (definitions are not uses)
+					}
+				case *ast.IncDecStmt:
+					mark(x.X)
+				case *ast.UnaryExpr:
+					if x.Op == token.AND {
+						mark(x.X)
+					}
+				case *ast.RangeStmt:
+					if x.Tok == token.ASSIGN {
+						if x.Key != nil {
+							mark(x.Key)
+						}
+						if x.Value != nil {
+							mark(x.Value)
+						}
+					}
+				}
+				return true
+			})
+		}
+	}
+}
+
+// localCopy: the variable defined by id is a transparent single-assignment local.
+func localCopy(info *types.Info, id *ast.Ident) bool {
+	o := info.Defs[id]
+	if o == nil {
+		return false
+	}
+	// pat indexes by use; build a use-like lookup through the object
+	for use, obj := range info.Uses {
+		if obj == o {
+			return pat.DefOf(info, use) != nil
+		}
+	}
+	return true // never used: harmless
+}
+
 // Strip removes parentheses and type conversions.
 func Strip(info *types.Info, e ast.Expr) ast.Expr {
 	for {
 		e = ast.Unparen(e)
+		if st, ok := e.(*ast.StarExpr); ok { // *&x, and *p with p := &x (p never re-assigned): x
+			inner := ast.Unparen(st.X)
+			if id, isID := inner.(*ast.Ident); isID {
+				if d := pat.DefOf(info, id); d != nil {
+					inner = ast.Unparen(d)
+				}
+			}
+			if u, isAddr := inner.(*ast.UnaryExpr); isAddr && u.Op == token.AND {
+				e = u.X
+				continue
+			}
+			return e
+		}
 		call, ok := e.(*ast.CallExpr)
 		if !ok || len(call.Args) != 1 {
 			return e
@@ -86,7 +243,7 @@ func AssignsTo(info *types.Info, n ast.Node, v types.Object) (*ast.AssignStmt, a
 		return nil, nil
 	}
 	for i, l := range as.Lhs {
-		if id, ok := ast.Unparen(l).(*ast.Ident); ok && core.ObjOf(info, id) == v {
+		if id, ok := ast.Unparen(l).(*ast.Ident); ok && Obj(info, id) == v {
 			return as, core.AssignedTo(as, i)
 		}
 	}
@@ -154,7 +311,7 @@ func MethodCallOn(info *types.Info, n ast.Node, obj types.Object, name string) b
 		}
 	}
 	for _, call := range calls {
-		if sel, ok := ast.Unparen(call.Fun).(*ast.SelectorExpr); ok && (name == "" || sel.Sel.Name == name) && core.ObjOf(info, sel.X) == obj {
+		if sel, ok := ast.Unparen(call.Fun).(*ast.SelectorExpr); ok && (name == "" || sel.Sel.Name == name) && Obj(info, sel.X) == obj {
 			return true
 		}
 	}
@@ -170,7 +327,7 @@ func BuiltinCallOn(info *types.Info, n ast.Node, name string, obj types.Object) 
 		}
 	}
 	for _, call := range calls {
-		if b, ok := core.Callee(info, call).(*types.Builtin); ok && b.Name() == name && len(call.Args) >= 1 && core.ObjOf(info, call.Args[0]) == obj {
+		if b, ok := core.Callee(info, call).(*types.Builtin); ok && b.Name() == name && len(call.Args) >= 1 && Obj(info, call.Args[0]) == obj {
 			return true
 		}
 	}
@@ -178,173 +335,6 @@ func BuiltinCallOn(info *types.Info, n ast.Node, name string, obj types.Object) 
 }
 
 func isDefer(n ast.Node) bool { _, ok := n.(*ast.DeferStmt); return ok }
-
-// stable: constant, identifier or field-selector chain.
-func stable(info *types.Info, e ast.Expr) bool {
-	e = Strip(info, e)
-	if _, ok := core.IntConst(info, e); ok {
-		return true
-	}
-	switch x := e.(type) {
-	case *ast.Ident:
-		return true
-	case *ast.SelectorExpr:
-		return stable(info, x.X)
-	case *ast.CallExpr: // len(x), cap(x)
-		if b, ok := core.Callee(info, x).(*types.Builtin); ok && (b.Name() == "len" || b.Name() == "cap") {
-			return stable(info, x.Args[0])
-		}
-	}
-	return false
-}
-
-// WaitLoop checks that every normal exit of the function body (graph g) is
-// preceded by a receive from channel `wait`, for the two idioms `for flag :=
-// false; !flag; { select { case <-wait: flag = true ... } }` and an
-// unconditional loop / plain receive.
-func WaitLoop(c *core.Ctx, rule, key string, g *cfgq.Graph, body *ast.BlockStmt, info *types.Info, wait types.Object, consequence string) {
-	isRecv := func(s ast.Stmt) bool {
-		var e ast.Expr
-		switch x := s.(type) {
-		case *ast.ExprStmt:
-			e = x.X
-		case *ast.AssignStmt:
-			if len(x.Rhs) == 1 {
-				e = x.Rhs[0]
-			}
-		}
-		u, ok := ast.Unparen(e).(*ast.UnaryExpr)
-		return e != nil && ok && u.Op == token.ARROW && core.ObjOf(info, u.X) == wait
-	}
-	comm := map[ast.Stmt]bool{}
-	arms := map[*cfg.Block]bool{}
-	plain := map[ast.Node]bool{}
-	var first ast.Node
-	core.Inspect(body, func(n ast.Node) bool {
-		if cc, ok := n.(*ast.CommClause); ok && cc.Comm != nil {
-			comm[cc.Comm] = true
-			if isRecv(cc.Comm) {
-				for _, b := range g.CFG.Blocks {
-					if b.Kind == cfg.KindSelectCaseBody && b.Stmt == ast.Stmt(cc) {
-						arms[b] = true
-						first = cc
-					}
-				}
-			}
-		}
-		return true
-	})
-	core.Inspect(body, func(n ast.Node) bool {
-		if s, ok := n.(ast.Stmt); ok && !comm[s] && isRecv(s) {
-			plain[s] = true
-			first = s
-		}
-		return true
-	})
-	if first == nil {
-		c.Undecidedf(rule, key, body.Pos(), "no receive from the done channel found in the function body")
-		return
-	}
-	avoid := func(n ast.Node) bool { return plain[n] }
-	armEdge := func(b *cfg.Block, s int) bool { return arms[b.Succs[s]] }
-	// Boolean locals that can only be true after the receive ("done" flags, per-iteration or loop-carried):
-	// declared false, only assigned constants, and every `= true` is reachable only through the receive.
-	// An edge that establishes such a flag as true is therefore as good as the receive itself, whatever
-	// the loop form (for !done {...}, for {...; if finished { break } }, done == false, switch ...).
-	flags, opaque := map[types.Object]bool{}, false
-	isBool := func(o types.Object) bool {
-		v, ok := o.(*types.Var)
-		if !ok || v.IsField() || !within(v, body) {
-			return false
-		}
-		b, ok := v.Type().Underlying().(*types.Basic)
-		return ok && b.Kind() == types.Bool
-	}
-	cands := map[types.Object]bool{}
-	core.Inspect(body, func(n ast.Node) bool {
-		if id, ok := n.(*ast.Ident); ok {
-			if o := core.ObjOf(info, id); o != nil && isBool(o) {
-				cands[o] = true
-			}
-		}
-		return true
-	})
-	for o := range cands {
-		valid, followed := true, true
-		core.InspectAll(body, func(n ast.Node) bool {
-			var rhs ast.Expr
-			var at ast.Node
-			switch x := n.(type) {
-			case *ast.AssignStmt:
-				if as, r := AssignsTo(info, x, o); as != nil {
-					rhs, at = r, as
-					if r == nil {
-						valid, followed = false, false
-					}
-				}
-			case *ast.ValueSpec:
-				for i, id := range x.Names {
-					if info.Defs[id] == o && i < len(x.Values) {
-						rhs, at = x.Values[i], x
-					}
-				}
-			case *ast.UnaryExpr:
-				if x.Op == token.AND && core.ObjOf(info, x.X) == o {
-					valid, followed = false, false
-				}
-			}
-			if at == nil || rhs == nil {
-				return true
-			}
-			tv, ok := info.Types[rhs]
-			if !ok || tv.Value == nil {
-				valid, followed = false, false
-				return true
-			}
-			if tv.Value.String() != "true" {
-				return true
-			}
-			p, found := g.Find(at)
-			if !found || g.Path(cfgq.Query{From: g.Entry(), Avoid: avoid, AvoidEdge: armEdge, Target: IsNode(p.Node())}) != nil {
-				valid = false
-			}
-			return true
-		})
-		if valid {
-			flags[o] = true
-		} else if !followed {
-			opaque = true // assigned a computed value / address taken: its truth says nothing we can follow
-		}
-	}
-	flagTrue := func(b *cfg.Block, s int) bool {
-		return EdgeFact(g, b, s, func(f cfgq.Fact) bool {
-			e := ast.Unparen(f.Expr)
-			val := f.Val
-			if be, ok := e.(*ast.BinaryExpr); ok && (be.Op == token.EQL || be.Op == token.NEQ) {
-				x, y := be.X, be.Y
-				if tv, ok := info.Types[x]; ok && tv.Value != nil {
-					x, y = y, x
-				}
-				tv, ok := info.Types[y]
-				if !ok || tv.Value == nil {
-					return false
-				}
-				e, val = ast.Unparen(x), ((tv.Value.String() == "true") == (be.Op == token.EQL)) == f.Val
-			}
-			return val && flags[core.ObjOf(info, e)]
-		})
-	}
-	w := g.Path(cfgq.Query{From: g.Entry(), Avoid: avoid, TargetExit: NormalExit,
-		AvoidEdge: func(b *cfg.Block, s int) bool { return armEdge(b, s) || flagTrue(b, s) }})
-	switch {
-	case w == nil:
-		c.Okf(rule, key, first.Pos(), "every return is preceded by a receive from the done channel (directly or through a flag that only the receive sets)")
-	case opaque:
-		c.Undecidedf(rule, key, first.Pos(), "a return seems reachable without the receive, but a boolean local of the function is assigned in a way that is not followed")
-	default:
-		c.Check(rule, key, first.Pos(), false, "a return is reachable without having received from the done channel (no `<-done` on the path, and no flag that only the receive sets was read as true): "+consequence, w...)
-	}
-}
 
 // ErrSpec parameterises ErrCheck.
 type ErrSpec struct {
@@ -354,225 +344,6 @@ type ErrSpec struct {
 	Mark        func(n ast.Node, err types.Object) bool // other failure marks (childErrors[i] = err)
 	BlankOK     func(as *ast.AssignStmt) string         // justification for `x, _ := f()`; "" = none
 	seen        map[ast.Node]bool
-}
-
-// EdgeFact is cfgq.EdgeEstablishes extended to the cases of a tagless switch.
-func EdgeFact(g *cfgq.Graph, b *cfg.Block, succ int, match func(cfgq.Fact) bool) bool {
-	if cfgq.EdgeEstablishes(b, succ, match) {
-		return true
-	}
-	cond := cfgq.CondOf(b)
-	if cond == nil || len(b.Succs) != 2 || b.Succs[0].Kind != cfg.KindSwitchCaseBody {
-		return false
-	}
-	cc, _ := b.Succs[0].Stmt.(*ast.CaseClause)
-	if cc == nil {
-		return false
-	}
-	path := core.PathTo(g.Body, cc)
-	if len(path) < 3 {
-		return false
-	}
-	sw, ok := path[len(path)-3].(*ast.SwitchStmt)
-	if !ok {
-		return false
-	}
-	if sw.Tag != nil { // `switch tag { case v: }`: the edge into the body means tag == v, the other one tag != v
-		return match(cfgq.Fact{Expr: &ast.BinaryExpr{X: sw.Tag, Op: token.EQL, Y: cond}, Val: succ == 0})
-	}
-	if len(cc.List) != 1 && succ == 0 {
-		return false // `case a, b:` entered through a: only a disjunction is known
-	}
-	for _, f := range cfgq.Facts(cond, succ == 0) {
-		if match(f) {
-			return true
-		}
-	}
-	return false
-}
-
-func NilCmp(info *types.Info, f cfgq.Fact, err types.Object) (nonNil, isCmp bool) {
-	be, ok := ast.Unparen(f.Expr).(*ast.BinaryExpr)
-	if !ok || be.Op != token.NEQ && be.Op != token.EQL {
-		return false, false
-	}
-	x, y := be.X, be.Y
-	if core.IsNil(info, x) {
-		x, y = y, x
-	}
-	if !core.IsNil(info, y) || core.ObjOf(info, x) != err {
-		return false, false
-	}
-	return (be.Op == token.NEQ) == f.Val, true
-}
-
-// ErrCheck: the error result of call is bound, tested on every path, and each
-// edge that establishes err != nil reaches a failure exit on every path.
-func ErrCheck(c *core.Ctx, g *cfgq.Graph, info *types.Info, body ast.Node, call *ast.CallExpr, spec ErrSpec) bool {
-	if spec.seen == nil {
-		spec.seen = map[ast.Node]bool{}
-	}
-	name := "call"
-	if f := core.CalleeFunc(info, call); f != nil {
-		name = f.Name()
-	}
-	fail := func(pos token.Pos, w []string, format string, a ...interface{}) bool {
-		c.Check(spec.Rule, spec.Key, pos, false, fmt.Sprintf(format, a...)+": "+spec.Consequence, w...)
-		return false
-	}
-	path := core.PathTo(body, call)
-	var outer ast.Expr = call
-	var stmt ast.Stmt
-	for i := len(path) - 2; i >= 0 && stmt == nil; i-- {
-		switch x := path[i].(type) {
-		case *ast.ParenExpr:
-			outer = x
-		case *ast.CallExpr: // conv(f()): the converter forwards the error
-			if len(x.Args) == 1 && ast.Unparen(x.Args[0]) == ast.Unparen(outer) && LastIsError(info, x) {
-				outer = x
-			} else {
-				c.Undecidedf(spec.Rule, spec.Key, call.Pos(), "result of %s is consumed by an enclosing call: not an enumerated idiom", name)
-				return false
-			}
-		case ast.Stmt:
-			stmt = x
-		default:
-			c.Undecidedf(spec.Rule, spec.Key, call.Pos(), "result of %s is used inside an expression: not an enumerated idiom", name)
-			return false
-		}
-	}
-	var errObj types.Object
-	var as *ast.AssignStmt
-	switch x := stmt.(type) {
-	case *ast.ExprStmt:
-		return fail(call.Pos(), nil, "the error returned by %s is discarded (call used as a statement)", name)
-	case *ast.AssignStmt:
-		if len(x.Rhs) != 1 || ast.Unparen(x.Rhs[0]) != ast.Unparen(outer) {
-			c.Undecidedf(spec.Rule, spec.Key, call.Pos(), "assignment form around %s not recognised", name)
-			return false
-		}
-		as = x
-		last := x.Lhs[len(x.Lhs)-1]
-		if id, ok := last.(*ast.Ident); ok && id.Name == "_" {
-			if spec.BlankOK != nil {
-				if why := spec.BlankOK(x); why != "" {
-					c.Okf(spec.Rule, spec.Key, x.Pos(), "%s", why)
-					return true
-				}
-			}
-			return fail(x.Pos(), nil, "the error returned by %s is bound to `_`", name)
-		}
-		errObj = core.ObjOf(info, last)
-	default:
-		c.Undecidedf(spec.Rule, spec.Key, call.Pos(), "%s is called from a %T: not an enumerated idiom", name, stmt)
-		return false
-	}
-	if errObj == nil || !cfgq.IsErrorType(errObj.Type()) {
-		c.Undecidedf(spec.Rule, spec.Key, call.Pos(), "cannot identify the error variable bound from %s", name)
-		return false
-	}
-	ap, ok := g.Find(as)
-	if !ok {
-		c.Undecidedf(spec.Rule, spec.Key, call.Pos(), "call site not in the control-flow graph")
-		return false
-	}
-	spec.seen[as] = true
-	isTest := func(n ast.Node) bool {
-		e, ok := n.(ast.Expr)
-		if !ok {
-			return false
-		}
-		for _, f := range append(cfgq.Facts(e, true), cfgq.Facts(e, false)...) {
-			if _, is := NilCmp(info, f, errObj); is {
-				return true
-			}
-		}
-		return false
-	}
-	// forwarders: `x, err = conv(reply, err)`
-	var forwards []*ast.CallExpr
-	isForward := func(n ast.Node) bool {
-		x, ok := n.(*ast.AssignStmt)
-		if !ok || x == as || len(x.Rhs) != 1 {
-			return false
-		}
-		fc, ok := ast.Unparen(x.Rhs[0]).(*ast.CallExpr)
-		if !ok || !LastIsError(info, fc) || len(fc.Args) == 0 || core.ObjOf(info, fc.Args[len(fc.Args)-1]) != errObj {
-			return false
-		}
-		if !spec.seen[x] {
-			spec.seen[x] = true
-			forwards = append(forwards, fc)
-		}
-		return true
-	}
-	overwritten := func(n ast.Node) bool {
-		x, _ := AssignsTo(info, n, errObj)
-		return x != nil
-	}
-	w := g.Path(cfgq.Query{From: ap, After: true, Avoid: cfgq.Or(isTest, isForward), TargetExit: NormalExit,
-		Target: func(n ast.Node) bool { return !isForward(n) && overwritten(n) }})
-	if w != nil {
-		return fail(as.Pos(), w, "the error returned by %s is not tested on some path", name)
-	}
-	// every edge establishing err != nil must end in a failure exit
-	failure := func(n ast.Node) bool {
-		if spec.Mark != nil && spec.Mark(n, errObj) {
-			return true
-		}
-		if ret, ok := n.(*ast.ReturnStmt); ok && spec.RetOK && len(ret.Results) > 0 {
-			last := ret.Results[len(ret.Results)-1]
-			if tv, ok := info.Types[last]; ok && cfgq.IsErrorType(tv.Type) && !core.IsNil(info, last) {
-				_, isCall := ast.Unparen(last).(*ast.CallExpr)
-				return isCall || core.ObjOf(info, last) == errObj
-			}
-		}
-		return false
-	}
-	tested := 0
-	for _, b := range g.CFG.Blocks {
-		if !b.Live || cfgq.CondOf(b) == nil || !isTest(cfgq.CondOf(b)) {
-			continue
-		}
-		// only tests reached from this call (the variable may be reused)
-		if g.Path(cfgq.Query{From: ap, After: true, Avoid: overwritten, Target: IsNode(cfgq.CondOf(b))}) == nil {
-			continue
-		}
-		for s := range b.Succs {
-			if !EdgeFact(g, b, s, func(f cfgq.Fact) bool { nn, is := NilCmp(info, f, errObj); return is && nn }) {
-				continue
-			}
-			tested++
-			w := g.Path(cfgq.Query{From: cfgq.Point{B: b.Succs[s]}, Avoid: failure, Target: IsNode(as), TargetExit: NormalExit})
-			if w != nil {
-				return fail(cfgq.CondOf(b).Pos(), w, "after %s failed (error non-nil) execution continues without a failure exit (no-return logger, error return, recorded worker error)", name)
-			}
-		}
-	}
-	if tested == 0 && len(forwards) == 0 {
-		c.Undecidedf(spec.Rule, spec.Key, as.Pos(), "no branch establishing `err != nil` found for %s", name)
-		return false
-	}
-	for _, fc := range forwards {
-		if !ErrCheck(c, g, info, body, fc, spec) {
-			return false
-		}
-	}
-	if len(forwards) == 0 {
-		c.Okf(spec.Rule, spec.Key, as.Pos(), "error of %s bound, tested, non-nil edge reaches a failure exit on every path", name)
-	}
-	return true
-}
-
-func LastIsError(info *types.Info, call *ast.CallExpr) bool {
-	tv, ok := info.Types[call]
-	if !ok {
-		return false
-	}
-	if tup, ok := tv.Type.(*types.Tuple); ok {
-		return tup.Len() > 0 && cfgq.IsErrorType(tup.At(tup.Len()-1).Type())
-	}
-	return cfgq.IsErrorType(tv.Type)
 }
 
 // ---------------------------------------------------------------------------
